@@ -107,6 +107,7 @@ def plan(tier, seed):
         for j in range(len(m)):
             jobs.append({'space': 'table', 'n': i, 'o': j, 'tier': tier,
                          'weight': 1})
+    jobs.append({'space': 'caseonly', 'tier': tier, 'weight': 1})
     return jobs
 
 
@@ -118,9 +119,69 @@ def decide_vec(enf, name):
     return tuple(out)
 
 
+# old and new default differ ONLY in letter case, at places where case counts:
+# the name of a referenced rule, a quoted literal.  (text, allows(roles, kind))
+CASE_PAIRS = [
+    (('rule:Helper', lambda r, k: 'a' in r),
+     ('rule:helper', lambda r, k: 'b' in r)),
+    (("'Legacy':%(kind)s", lambda r, k: k == 'Legacy'),
+     ("'legacy':%(kind)s", lambda r, k: k == 'legacy')),
+    (('rule:helper and role:c', lambda r, k: 'b' in r and 'c' in r),
+     ('rule:Helper and role:c', lambda r, k: 'a' in r and 'c' in r)),
+    (('role:c or rule:Helper', lambda r, k: 'c' in r or 'a' in r),
+     ('role:C or rule:helper', lambda r, k: 'c' in r or 'b' in r)),
+]
+
+
+def run_caseonly(acc, P):
+    for (new, old), renamed, end, swap in itertools.product(
+            CASE_PAIRS, (True, False), (False, True), (False, True)):
+        if swap:
+            new, old = old, new
+        w = world.FileWorld()
+        try:
+            w.write('policy.yaml', world.dumps_policy(
+                {'Helper': 'role:a', 'helper': 'role:b'}, 'json'))
+            enf = P.Enforcer(world.new_conf(w.root, policy_dirs=[],
+                                            enforce_new_defaults=end))
+            enf.suppress_deprecation_warnings = True
+            dep = P.DeprecatedRule('svc:old' if renamed else 'svc:new',
+                                   old[0], deprecated_reason='r',
+                                   deprecated_since='1')
+            enf.register_default(P.RuleDefault('svc:new', new[0],
+                                               deprecated_rule=dep))
+            acc.case('caseonly', True)
+            for rs in SUBSETS:
+                for kind in ('Legacy', 'legacy', 'other'):
+                    exp = new[1](rs, kind) or (not end and old[1](rs, kind))
+                    acc.ev()
+                    got = world.decide(enf, 'svc:new', {'kind': kind},
+                                       {'roles': sorted(rs)})
+                    if got != ('ok', exp):
+                        acc.violation(
+                            'caseonly|renamed=%s|end=%s|%s' % (
+                                renamed, end, 'allows' if got == ('ok', True)
+                                else 'denies' if got[0] == 'ok' else got[1]),
+                            'new default %r, deprecated default %r '
+                            '(enforce_new_defaults=%s): svc:new decides %r '
+                            'for roles %r kind %r, the table says %r' %
+                            (new[0], old[0], end, got, sorted(rs), kind, exp),
+                            {'new': new[0], 'old': old[0], 'renamed': renamed,
+                             'enforce_new_defaults': end,
+                             'roles': sorted(rs), 'kind': kind}, exp, got,
+                            'caseonly')
+                    acc.outcome('caseonly-%s' % exp)
+        finally:
+            w.destroy()
+    acc.sample('caseonly', {'pairs': [[a[0], b[0]] for a, b in CASE_PAIRS]})
+    return acc.result()
+
+
 def run(job, seed):
     from oslo_policy import policy as P
     acc = core.Acc()
+    if job['space'] == 'caseonly':
+        return run_caseonly(acc, P)
     tier = job['tier']
     N = MENU[tier][job['n']]
     O = MENU[tier][job['o']]
